@@ -208,6 +208,11 @@ func (f *flush) addBaseTimer(name string, timer gostatsd.Timer) {
 }
 
 func (f *flush) addHistogramTimer(name string, timer gostatsd.Timer) {
+	if len(timer.Histogram) == 0 {
+		// No buckets (the bucket limit is 0): there are no fields to write, and a line without
+		// fields is not valid line protocol.
+		return
+	}
 	writeName(f.writer, name, timer.Tags)
 
 	var sb strings.Builder
